@@ -268,6 +268,10 @@ func (r *reader) IntValue() (*int, error) {
 	if err != nil {
 		return nil, err
 	}
+	if i == nil {
+		// null.int
+		return nil, nil
+	}
 	if *i > math.MaxInt32 || *i < math.MinInt32 {
 		return nil, &UsageError{"Reader.IntValue", "value too large for an int32"}
 	}
